@@ -203,6 +203,15 @@ def check(ctx):
                 r3.bad(V(r3.id, v.id, "recursion-after-push", "a dependency can be visited after the node was emitted", p.file, p.line))
             else:
                 r3.ok("post-order: no recursive visit reachable from the push")
+        # every dependency is visited before the node is emitted: the loop over a node's dependencies runs until its iterator is exhausted
+        # (a `break` on an already placed dependency leaves the later ones unvisited: the node's schema then precedes theirs)
+        from rulelib import all_loop_exits
+        for (drv_, exits_) in all_loop_exits(v):
+            for (b_, to_, cond_, kind_) in exits_:
+                r3.bad(V(r3.id, v.id, "dependency-loop-left-early:%s" % kind_, "the loop over a node's dependencies is left by `%s` under `%s`: dependencies after that point "
+                         "are not visited before the node is emitted" % (kind_, cond_)))
+            if not exits_:
+                r3.ok("topological_visit: the dependency loop runs until its iterator is exhausted")
         U = Unord(P)
         for site in U.sites([v, s_]):
             if site.kind in ("erased", "sorted", "scalar"):
